@@ -548,6 +548,11 @@ class NF:
             n = int(q)
             if n == 0:
                 return NF.const(1)
+            if n % 2 == 0:
+                # |x| ** 2k == x ** 2k
+                a = _single_atom(self)
+                if a is not None and a.kind == "abs":
+                    return lift(a.args[0]) ** n
             base = self if n > 0 else self.inv()
             r = base
             for _ in range(abs(n) - 1):
